@@ -211,6 +211,19 @@ class C05:
             hrows, tag = E.hand_format(name, [row], rc)
             if tag != "generator":
                 row, source = hrows[0], tag
+        rdup = st.get("flp_colocated")
+        if name == "flp" and source == "generator" and rdup.random() < 0.4:
+            # two candidate sites at the same place (legal data: duplicated coordinates, zero off-diagonal cost):
+            # a selection holding both is a feasible solution like any other and has to stay reachable
+            n_ = row["locs"].shape[0]
+            i_, j_ = rdup.sample(range(n_), 2)
+            row = {k: v.clone() for k, v in row.items()}
+            row["locs"][j_] = row["locs"][i_]
+            D = row["orig_distances"]
+            D[j_, :] = D[i_, :]
+            D[:, j_] = D[:, i_]
+            D[i_, j_] = D[j_, i_] = D[j_, j_] = 0.0
+            source = "hand:flp_colocated"
         # a stranger (another instance, other agent count / variant / demands) stepped at batch row 0 next to
         # the solutions under test: what is offered to an instance must not depend on its batch-mates
         stranger = E.enc_row(two[1]) if rc.random() < 0.5 else None
